@@ -651,8 +651,8 @@ class Checker:
                     if res.ok:
                         self._cmp_axis("ND", f"{attr}|axis", kind, res.value, *exps[i])
                 # numpy-format edges of one axis
-                # (physt derives the edges of all axes first, so one gapped axis makes every axis refuse)
-                res = self.get(h, "get_bin_edges", key, must=all(consec), fam="ND", key="get_bin_edges|axis")
+                # (the edges of a consecutive axis do not depend on gaps in the other axes - repaired in 99b870a)
+                res = self.get(h, "get_bin_edges", key, must=consec[i], fam="ND", key="get_bin_edges|axis")
                 if i == 0 and form == "index":
                     self.labels.add(f"get_bin_edges(axis):{'this-axis-consecutive' if consec[i] else 'this-axis-gapped'},"
                                     f"{'all' if all(consec) else 'not-all'}-consecutive:{res.label}")
@@ -730,6 +730,64 @@ def check_additivity(ck, fam, a, amount, info_s, info_m):
             return
 
 
+EDGE_TYPES = ["uint8", "int8", "int16", "int32", "uint16", "float16", "float32", "int64", "float64"]
+
+
+def evaluate_edge_types(case):
+    """Edges given in a narrow numeric type: widths, centres, sizes and totals are those of the numbers."""
+    from physt import h1, h2
+    from physt.special_histograms import PolarHistogram
+    from physt.types import Histogram1D
+
+    dt = np.dtype(case["etype"])
+    vals = [0, 64, 100, 127] if dt.itemsize == 1 else [0, 64, 200, 255]
+    if case["etype"] in ("int16", "uint16"):
+        vals = [0, 200, 20000, 30000]
+    elif case["etype"] in ("int32", "int64", "float32", "float64"):
+        vals = [0, 200, 50000, 70000]
+    elif case["etype"] == "float16":
+        vals = [0.0, 64.0, 200.0, 255.0]
+    edges = np.array(vals, dtype=dt)
+    ex = [float(v) for v in vals]
+    widths = [b - a for a, b in zip(ex[:-1], ex[1:])]
+    centers = [(a + b) / 2 for a, b in zip(ex[:-1], ex[1:])]
+    cls = case["cls"]
+    out = []
+    sig = f"edge_type|{cls}|{case['etype']}"
+
+    def cmp(name, got, want):
+        got = [float(x) for x in np.asarray(got).ravel().tolist()]
+        if len(got) != len(want) or any(not (abs(g - w) <= 1e-6 * max(1.0, abs(w))) for g, w in zip(got, want)):
+            out.append(V("geom", f"{sig}|{name}", case, want, got))
+
+    if cls == "h1":
+        res = call(lambda: h1(np.array([10.0, 70.0, 70.0]), edges))
+    elif cls == "Histogram1D":
+        res = call(lambda: Histogram1D(edges, [1, 2, 0]))
+    elif cls == "h2":
+        res = call(lambda: h2(np.array([10.0, 70.0]), np.array([10.0, 70.0]), [edges, edges.copy()]))
+    else:
+        res = call(lambda: PolarHistogram([edges, np.array([0.0, np.pi, 2 * np.pi])], np.ones((3, 2))))
+    if not res.ok:
+        return [V("construct", f"{sig}|{exc_sig(res.exc)}", case, "a histogram over these edges", res.describe())], "raise"
+    h = res.value
+    if cls in ("h1", "Histogram1D"):
+        cmp("bin_widths", h.bin_widths, widths)
+        cmp("bin_centers", h.bin_centers, centers)
+        cmp("bin_sizes", h.bin_sizes, widths)
+        cmp("total_width", [h.total_width], [ex[-1] - ex[0]])
+        cmp("densities_x_sizes", np.asarray(h.densities) * np.asarray(h.bin_sizes), [float(x) for x in h.frequencies])
+    elif cls == "h2":
+        cmp("bin_sizes", h.bin_sizes, [a * b for a in widths for b in widths])
+        cmp("total_size", [h.total_size], [(ex[-1] - ex[0]) ** 2])
+        cmp("widths0", h.get_bin_widths(0), widths)
+        cmp("centers1", h.get_bin_centers(1), centers)
+    else:
+        want = [(b * b - a * a) / 2 * np.pi for a, b in zip(ex[:-1], ex[1:]) for _ in range(2)]
+        cmp("bin_sizes", h.bin_sizes, want)
+    return out, "ok"
+
+
 def evaluate_narrow(case):
     """cumulative_frequencies of narrow-integer histograms: every bin fits the dtype, the running sum does not.
     'cumulative_frequencies is the running sum ending at total' - exactly, never wrapped around."""
@@ -758,6 +816,9 @@ def evaluate_narrow(case):
 
 def evaluate(case):
     """-> (violations, labels, n_objects)."""
+    if case.get("kind") == "edge_types":
+        vs, label = evaluate_edge_types(case)
+        return vs, {"edge_types:" + label}, 1
     if case.get("kind") == "narrow":
         return evaluate_narrow(case)
     if case.get("kind") == "facade":
@@ -1069,6 +1130,7 @@ def units(tier, seed):
     us.append({"kind": "facade"})
     us.append({"kind": "history"})
     us.append({"kind": "narrow"})
+    us.append({"kind": "edge_types"})
     return us
 
 
@@ -1084,6 +1146,19 @@ NARROW = [("int16", [4453, 15724, 2186, 22637]), ("int16", [32767, 1]), ("int16"
 
 def run_unit(unit, ctx):
     p = Partial()
+    if unit["kind"] == "edge_types":
+        case = None
+        for et in EDGE_TYPES:
+            for cls in ("h1", "Histogram1D", "h2", "polar"):
+                case = {"kind": "edge_types", "etype": et, "cls": cls}
+                vs, labels, nobj = evaluate(case)
+                p.ev(True)
+                p.count("objects_checked", nobj)
+                for lab in labels:
+                    p.outcome(lab)
+                p.extend(vs)
+        p.sample(case)
+        return p
     if unit["kind"] == "narrow":
         import itertools as _it
 
